@@ -23,7 +23,9 @@ PURE_METHODS = {
 # methods of built-in values that mutate their receiver in place (a write to the receiver's owner)
 INPLACE_METHODS = {"append", "extend", "insert", "remove", "pop", "popitem", "clear", "update", "setdefault", "sort",
                    "reverse", "add", "discard", "finalize", "update_into"}
-IMMUTABLE_ANN = {"int", "str", "bytes", "bool", "float"}
+# `bytes` is deliberately absent: callers may pass a bytearray where bytes is annotated, and `x += ...` on a
+# bytearray parameter extends the caller's object in place
+IMMUTABLE_ANN = {"int", "str", "bool", "float"}
 EXTERNAL_PURE = {
     ("binascii", "a2b_hex"), ("algorithms", "TripleDES"), ("algorithms", "AES"), ("modes", "ECB"), ("modes", "CBC"),
     ("enum", "auto"), ("typing", "Optional"),
